@@ -51,11 +51,21 @@ static int match(int i) { return present[i] && (ISO == NOISO || tag[i] == ISO); 
 int main(void) {
   VP_ASSERT(vp_sizeof_task() == sizeof(task_t) && vp_sizeof_proxy() == sizeof(proxy_t), "generated struct sizes differ from the C++ ones");
   NOISO = (u64)vp_no_isolation();
+#ifdef CTAGS   /* concrete tag pattern (byte i of CTAGS = tag of entry i, CISO = waiter's tag) */
+  ISO = CISO;
+#else
   ISO = vp_nd();
+#endif
   VP_ASSERT(vp_sizeof_arena() == sizeof(arena_t) && vp_sizeof_slot() == sizeof(slot_t) && vp_sizeof_outbox() == sizeof(outbox_t), "generated struct sizes differ from the C++ ones");
   arena_t* A = &ARENA; slot_t* S = &SLOT; ed_t* ED = &EDX;
   vp_ed_link(ED, &DISP, &TD, A, S, 0);
-  for (int i = 0; i < N; i++) { T[i] = &tbuf[i]; tag[i] = vp_nd(); present[i] = 1; vp_task_init(T[i], tag[i]); }
+  for (int i = 0; i < N; i++) { T[i] = &tbuf[i]; present[i] = 1;
+#ifdef CTAGS
+    tag[i] = ((u64)CTAGS >> (8 * i)) & 0xff;
+#else
+    tag[i] = vp_nd();
+#endif
+    vp_task_init(T[i], tag[i]); }
 
 #if SRC == 0 || SRC == 1
   /* pool entries h..h+N-1; an entry may be a hole (NULL) left by an earlier isolated pop / steal */
